@@ -222,8 +222,9 @@ OuterLoop:
 
 			url.Init()
 			rl.bindPolicyToURL(url)
+			// Requests still running on the previous generation keep using
+			// the limiter, so it is shared, not taken away.
 			url.rl = prev.rl
-			prev.rl = nil
 			rl.setStateListenerForURL(url)
 			continue OuterLoop
 		}
